@@ -113,10 +113,9 @@ def rel (basepath targpath : Str) : Option Str :=
     else
       match stripCommon (relElems b) (relElems t) with
       | (b', t') =>
-        match b', t' with
-        | [], _ => some (joinSlash t')
-        | x :: _, _ :: _ => if x = dotdot then none else some (joinSlash (b'.map (fun _ => dotdot) ++ t'))
-        | _ :: _, [] => some (joinSlash (b'.map fun _ => dotdot))
+        match b' with
+        | [] => some (joinSlash t')
+        | x :: _ => if x = dotdot then none else some (joinSlash (b'.map (fun _ => dotdot) ++ t'))
 
 /-- `q` is `d` itself or lies beneath it (both cleaned, `d` absolute). -/
 def within (d q : Str) : Bool :=
